@@ -10,7 +10,7 @@ proofs have to go through again.  (C19: the wrapper's training record is the spe
 namespace Ska.WrapperGenProps
 open Ska Ska.IW Ska.PyIW Ska.Gen.IW
 
-variable {L W : Type}
+variable {C L W : Type}
 
 /-- the translated block computes the hand-written `merge` (on which `Props/C19.lean` is built), for all inputs -/
 theorem gen_merge_eq (u : Bool) (d : Data L W) (idx : List Int) (ay : List L) (aw : Option (List W)) :
@@ -70,6 +70,37 @@ theorem gen_copy_sw (w : Option (List W)) : _copy_sw w = .ok w := by
 theorem gen_get_sw_none (c : CurIdx) : _get_sw (none : Option (List W)) c = .ok none := rfl
 
 theorem gen_concat_sw_some (a b : List W) : _concat_sw (some a) (some b) = .ok (some (a ++ b)) := rfl
+
+/-- **the translated tail of `fit` stores what the model's `fit` stores**: whenever the model's `fit` gets past its argument
+checks (so that the wrapped classifier is fitted on `⟨idx, yy, ww⟩`), the translated attribute assignments — run on the object
+whose `clf_` has just been fitted — never raise and leave attributes that stand for exactly the state `Ska.IW.fit` returns:
+`idx_, y_, sample_weight_` only without native `partial_fit`, the `base_*` copies only with `set_base_clf`. -/
+theorem gen_fit_store_eq_fit (cfg : Cfg L W) (fitFn : Data L W → C) (o : WObj C L W)
+    (idx : List Int) (y : Option (List L)) (sw : Option (List W)) (sb : Bool) (yy : List L) (ww : Option (List W))
+    (hc : checkIdx cfg idx = none) (hy : resolveY cfg idx y = .ok yy) (hw : resolveSW cfg idx sw = .ok ww)
+    (hx : xIndexOk cfg idx = true) :
+    ∃ o', fit.store cfg.native sb { o with clf_ := some (fitFn ⟨idx, yy, ww⟩) } idx yy ww = .ok o' ∧
+      absW o' = (fit cfg fitFn (absW o) idx y sw sb).1 ∧ (fit cfg fitFn (absW o) idx y sw sb).2 = none := by
+  obtain ⟨o', h1, h2⟩ := fit_store_abs cfg.native sb { o with clf_ := some (fitFn ⟨idx, yy, ww⟩) }
+    (fitFn ⟨idx, yy, ww⟩) idx yy ww rfl
+  refine ⟨o', h1, ?_, ?_⟩
+  · rw [h2]
+    simp only [fit, hc, hy, hw, hx, absW]
+    cases sb <;> cases cfg.native <;> simp
+  · simp only [fit, hc, hy, hw, hx]
+    cases sb <;> simp
+
+/-- the attributes are assigned together: after the translated tail the record `(idx_, y_, sample_weight_)` is complete
+whenever it was complete or absent before -/
+theorem gen_fit_store_record_complete (native sb : Bool) (o o' : WObj C L W) (c : C) (idx : List Int) (y : List L)
+    (sw : Option (List W)) (hc : o.clf_ = some c) (h : fit.store native sb o idx y sw = .ok o')
+    (hn : native = false) : (absW o').cur = some ⟨idx, y, sw⟩ := by
+  obtain ⟨o2, h1, h2⟩ := fit_store_abs native sb o c idx y sw hc
+  rw [h] at h1
+  cases h1
+  rw [h2]
+  subst hn
+  cases sb <;> simp
 
 /-- non-vacuity: relabelling sample 1 of the record `[3, 1, 4]` in unique mode moves it to the end; without the flag it is
 listed twice -/
